@@ -14,7 +14,7 @@ func init() { register("C16", checkC16) }
 func checkC16(c *Ctx) {
 	r := c.R
 	r.Explanation = "Decides structural necessary conditions of C16 on the three stream wrappers of package streams, on the SSA of every run. Each exported entry point (Read, Close, WriteTo) is analysed on an INLINED VIEW: the control-flow graph of the method with every statically resolved same-package callee (helper methods, functions, closures) spliced in at its call site — including function values whose target is known (a closure or method value passed as a callback such as withLock(func(){…}), a local assigned once, a func-typed field assigned once in the package, bound-method wrappers) — a call through a package interface with a single implementation and the function given to sync.Once.Do — and deferred calls replayed at the exits, counting loops over small local literals (tables of values or of steps) unrolled, branches on values that are constant in their context pruned, so a step counts wherever it is written; facts are branch conditions on paths (dominance, per-predecessor splitting of joins, short-circuit values, per-return splitting of helper results), and the types/fields are found by ROLE (the type LimitReadCloser returns; its interface field with Read+Close, its integer budget field, its bool flag; the []io.Reader field of MultiReaderCloser; the reader / writer interface fields of TeeReadCloser), not by unexported names, also when the fields are grouped into nested structs or a nil test is replaced by a flag; a closing loop over a local literal slice ([]any{r, w}) is understood; the list may hold small structs wrapping the readers; the closed flag may be a bool, an atomic.Bool (Load/Store/Swap(true)/CompareAndSwap(false,true)) or be replaced by a sync.Once around the close; clear(list) and slices.Delete(list,0,1) are read as the list updates they stand for; counting loops are recognised from their induction variable (while, range, rotated/range-over-int, backwards). " +
-		"LimitReadCloser's Read: (V1) on every path from the source read to a return the budget N was decreased by the source's count (or the count is known <= 0), and within the limit the source's count and error are passed through unchanged; " +
+		"LimitReadCloser: (V0-ctor) the constructor returns on every path with a non-nil source the limiting wrapper holding that source and the budget n itself — never the bare source for some limits, never n shifted; its Read: (V1) on every path from the source read to a return the budget N was decreased by the source's count (or the count is known <= 0), and within the limit the source's count and error are passed through unchanged; " +
 		"(V2-pre) before reading, ErrStreamTooLarge is returned only under N<0 or under a guard on another field than the budget (source==nil, a no-source flag) and io.EOF only under the closed flag; (V2-cap) the buffer handed to the source is capped at N+1; (V2-hide) on the over-limit side the look-ahead byte is hidden (count-1); (V2-err) on the over-limit side the returned error is ErrStreamTooLarge or a source error proven != io.EOF and != nil — never the source's io.EOF; " +
 		"(V2-close) every over-limit return has closed the source; (V4) the source's Close() is only reached with the flag known false, the flag is set on that path, and Close() closes the source unless already closed. " +
 		"MultiReaderCloser: (V3) a reader leaves the list (re-slice, nil-ing, truncation) only after it was closed if it is an io.Closer (exception: http.ErrBodyReadAfterClose) and, in Read, only after its Read returned a non-nil error; a reader closed while consuming is removed before it is used again or the method returns; WriteTo and Close walk the whole list (counting loop 0..len-1, or consuming it from the head, or detach-then-walk) and leave each element copied (WriteTo) and closed-if-Closer; " +
@@ -29,6 +29,7 @@ func checkC16(c *Ctx) {
 		"helper functions are analysed as if inlined (context-sensitively, depth <= 5, no recursion); loops over local literals are unrolled up to 8 entries; a branch on a constant argument of a helper is resolved; other goroutines do not touch the wrappers during a call",
 		"a field load denotes the receiver's field (the wrappers never hold a second instance of their own type)")
 
+	r.Rule("C16.V0-ctor", "LimitReadCloser returns, on every path with a source, the limiting wrapper initialised with that source and with the budget n itself (never the bare source, never n shifted)", 1)
 	r.Rule("C16.V1-count", "limitReadCloser.Read charges the source's byte count against N unconditionally; within the limit count and error pass through unchanged", 2)
 	r.Rule("C16.V2-cap", "limitReadCloser.Read hands the source a buffer of at most N+1 bytes", 1)
 	r.Rule("C16.V2-pre", "limiting reader's Read: before reading, ErrStreamTooLarge only under N<0 (or a guard on a field other than the budget: no source), io.EOF only under the closed flag", 1)
@@ -185,6 +186,7 @@ func c16Limit(c *Ctx) {
 	} else {
 		fClosed = c16FieldByType(named, "closed flag", "closed", isBool)
 	}
+	c16LimitCtor(c, named, fR, fN)
 	const rname = "streams.LimitReadCloser.Read"
 	g := c16Build(p, read)
 	g.Esc = g.Escapes(fR, false)
@@ -823,4 +825,123 @@ func c16CallHasArg(v ssa.Value, pred func(ssa.Value) bool) bool {
 		}
 	}
 	return false
+}
+
+// c16LimitCtor (V0-ctor): the limit is only enforced if the constructor hands
+// out the limiting wrapper, for every limit value: each value it can return is
+// the wrapper (with the source field set to the source parameter and the
+// budget field to the limit parameter itself), except on paths where the
+// source is known nil. Returning the source parameter itself on some other
+// condition (`if n == 0 { return r }`) leaves that limit unenforced: an
+// over-long source is delivered whole and ends with a clean EOF.
+func c16LimitCtor(c *Ctx, named *types.Named, fR, fN FieldID) {
+	r, p := c.R, c.P
+	ctor := p.Func("streams", "LimitReadCloser")
+	const construct = "streams.LimitReadCloser constructor"
+	g := c16Build(p, ctor)
+	var srcP, limP c16V
+	for _, pa := range ctor.Params {
+		switch {
+		case c16IsIface(pa.Type()) && c16HasMethod(pa.Type(), "Read") && c16HasMethod(pa.Type(), "Close"):
+			srcP = c16V{pa, nil}
+		default:
+			if b, ok := pa.Type().Underlying().(*types.Basic); ok && b.Info()&types.IsInteger != 0 {
+				limP = c16V{pa, nil}
+			}
+		}
+	}
+	if srcP.V == nil || limP.V == nil {
+		undecided("LimitReadCloser no longer takes a source stream and an integer limit")
+	}
+	srcNil := func(conds []c16C) bool {
+		for _, cd := range conds {
+			if cmp, ok := g.Cmp(cd); ok && cmp.Op == token.EQL {
+				if (g.Val(cmp.X) == srcP && g.IsNil(cmp.Y)) || (g.Val(cmp.Y) == srcP && g.IsNil(cmp.X)) {
+					return true
+				}
+			}
+		}
+		return false
+	}
+	why, wpos := "", token.NoPos
+	nWrapped := 0
+	for _, rl := range g.ExitLeaves(0) {
+		for _, lf := range rl.Leaves {
+			if srcNil(lf.Conds) {
+				continue // no source: nothing to limit
+			}
+			v := lf.Val
+			switch x := v.V.(type) {
+			case *ssa.MakeInterface:
+				if n, ok := deref(x.X.Type()).(*types.Named); ok && n == named {
+					nWrapped++
+					continue
+				}
+				g.Unk(r, "C16.V0-ctor: LimitReadCloser returns a value of another type at %s", p.Pos(rl.Ret.Pos()))
+			case *ssa.Parameter:
+				if v == srcP {
+					why = "LimitReadCloser returns the source stream itself (unwrapped) on a path where the source is not nil: for the limits taking that path nothing is enforced — a source longer than N is delivered whole and ends with a clean io.EOF instead of ErrStreamTooLarge, and is not closed by the failing Read"
+					wpos = rl.Ret.Pos()
+					continue
+				}
+				g.Unk(r, "C16.V0-ctor: LimitReadCloser returns an unexpected parameter at %s", p.Pos(rl.Ret.Pos()))
+			default:
+				g.Unk(r, "C16.V0-ctor: LimitReadCloser returns a value the rule cannot classify at %s", p.Pos(rl.Ret.Pos()))
+			}
+		}
+	}
+	// initialisation of the wrapper: budget := n, source := r on every path that returns
+	const (
+		iN = 1 << iota
+		iR
+	)
+	limBase := func(v c16V) string {
+		if v == limP {
+			return "n"
+		}
+		return ""
+	}
+	ff := &c16Flow{G: g, Entry: 0,
+		Transfer: func(n c16N, s uint32) uint32 {
+			if st := c16FieldStore(n.In, fN); st != nil {
+				b, off, ok := g.Lin(c16V{st.Val, n.Ctx}, limBase)
+				switch {
+				case ok && b == "n" && off == 0:
+					s |= iN
+				case ok && b == "n":
+					why = "LimitReadCloser initialises the budget with the limit shifted by a constant: one byte more or less than N is allowed"
+					wpos = g.Pos(n)
+				default:
+					g.Unk(r, "C16.V0-ctor: the budget field is initialised with an expression the rule cannot relate to the limit parameter at %s", p.Pos(g.Pos(n)))
+				}
+			}
+			if st := c16FieldStore(n.In, fR); st != nil && g.Val(c16V{st.Val, n.Ctx}) == srcP {
+				s |= iR
+			}
+			return s
+		}}
+	ff.Run()
+	ff.AtExits(func(exit *c16B, ret c16N, st map[uint32]bool) {
+		wrapped := false
+		for _, lf := range g.Leaves(c16V{ret.In.(*ssa.Return).Results[0], ret.Ctx}) {
+			if _, ok := lf.Val.V.(*ssa.MakeInterface); ok {
+				wrapped = true
+			}
+		}
+		if !wrapped {
+			return
+		}
+		if c16AnyState(st, func(s uint32) bool { return s&iN == 0 }) && why == "" {
+			why = "LimitReadCloser can return the wrapper without having stored the limit in its budget field: the limit given by the caller is not the one enforced"
+			wpos = g.Pos(ret)
+		}
+		if c16AnyState(st, func(s uint32) bool { return s&iR == 0 }) && why == "" {
+			why = "LimitReadCloser can return the wrapper without having stored the source stream in it: nothing is read"
+			wpos = g.Pos(ret)
+		}
+	})
+	if nWrapped == 0 && why == "" {
+		why = "LimitReadCloser never returns the limiting wrapper"
+	}
+	c16Check(r, g, why == "", "C16.V0-ctor", construct, p.Pos(c16PosOr(wpos, ctor.Pos())), "every return with a source hands out the wrapper holding that source and the budget n", why)
 }
